@@ -387,12 +387,10 @@ theorem delItem_inv (st : TState) (s : Nat) (i : Int) (h : Inv st) (hs : s < st.
     have := rewire3 st s _ _ _ [] h hs key (by simp) (by simp) (by simp)
     simpa [setParents] using this
 
-/-- extended-slice assignment `l[i:j:k] = us`; sizes must agree (otherwise the real code has already orphaned the
-addressed items when `list.__setitem__` raises: see `C13_ext_size_counterexample`) -/
+/-- extended-slice assignment `l[i:j:k] = us` (a size mismatch raises ValueError and leaves the state untouched) -/
 theorem setSliceExt_inv (st : TState) (s : Nat) (i j : Option Int) (k : Int) (us : List Nat) (h : Inv st)
     (hs : s < st.n) (hf : ∀ u ∈ us, st.parent u = none ∨ u ∈ Op.replaced st (.setSliceExt s i j k us))
-    (hd : us.Nodup) (hn : ∀ u ∈ us, u < st.n)
-    (hsz : k ≠ 0 → k ≠ 1 → us.length = (slicePositions (st.children s).length i j k).length) :
+    (hd : us.Nodup) (hn : ∀ u ∈ us, u < st.n) :
     Inv (setSliceExt st s i j k us).1 := by
   simp only [setSliceExt]
   simp only [Op.replaced] at hf
@@ -402,22 +400,23 @@ theorem setSliceExt_inv (st : TState) (s : Nat) (i j : Option Int) (k : Int) (us
   · simp only [h1, if_true] at hf
     simpa [h1] using setSlice_inv st s i j us h hs hf hd hn
   simp only [h0, h1, if_false] at hf ⊢
-  have hsz' := hsz h0 h1
-  simp only [hsz', if_true]
-  obtain ⟨hpl, hpn⟩ := slicePositions_spec (st.children s).length i j k h0
-  apply rewireG st s _ us _ h hs
-  · intro u hu
-    rw [mem_itemsAt] at hu
-    obtain ⟨p, _, he⟩ := hu
-    exact List.mem_of_getElem? he
-  · exact mem_replaceAt _ us _ (h.nodup s) hpn hpl hsz'
-  · apply nodup_replaceAt _ us _ (h.nodup s) hpl hsz' hd
-    intro u hu
-    rcases hf u hu with hp | hm
-    · left; intro hmem; rw [h.mem_iff, hp] at hmem; cases hmem
-    · right; exact hm
-  · exact hf
-  · exact hn
+  by_cases hsz' : us.length = (slicePositions (st.children s).length i j k).length
+  · simp only [hsz', if_true]
+    obtain ⟨hpl, hpn⟩ := slicePositions_spec (st.children s).length i j k h0
+    apply rewireG st s _ us _ h hs
+    · intro u hu
+      rw [mem_itemsAt] at hu
+      obtain ⟨p, _, he⟩ := hu
+      exact List.mem_of_getElem? he
+    · exact mem_replaceAt _ us _ (h.nodup s) hpn hpl hsz'
+    · apply nodup_replaceAt _ us _ (h.nodup s) hpl hsz' hd
+      intro u hu
+      rcases hf u hu with hp | hm
+      · left; intro hmem; rw [h.mem_iff, hp] at hmem; cases hmem
+      · right; exact hm
+    · exact hf
+    · exact hn
+  · simpa [hsz'] using h
 
 theorem delSliceExt_inv (st : TState) (s : Nat) (i j : Option Int) (k : Int) (h : Inv st) (hs : s < st.n) :
     Inv (delSliceExt st s i j k).1 := by
